@@ -1,6 +1,6 @@
 (* Properties_C13.v — C13: rotation yields self-contained files and loses, repeats or reorders nothing.
    Only statements live here. *)
-Require Import Base Cbor EncoderModel DecoderModel Schema Block BlockProofs Exporter ExporterProofs E2ESpec BlockDecode ViewProofs BlockRead FileProofs EndToEnd.
+Require Import Base Cbor EncoderModel DecoderModel Schema Block BlockProofs Exporter ExporterProofs E2ESpec BlockDecode ViewProofs AecView BlockRead FileProofs EndToEnd.
 Local Open Scope N_scope.
 
 (* an output closed by a rotation receives no further bytes: later calls only put new outputs in front of it *)
@@ -76,7 +76,9 @@ Theorem C13_records_across_outputs : forall pre ops, typed_pre pre -> adm0 pre o
     destroy x = file_bytes last cur /\
     Forall reads_back (rev closed ++ [(last, cur)]) /\
     flat_map file_view_qr (rev closed ++ [(last, cur)]) ++ blk_view_qr (x_blk x) = map Some (log_qr (x_new pre) ops) /\
-    flat_map file_view_mm (rev closed ++ [(last, cur)]) ++ blk_view_mm (x_blk x) = map Some (log_mm (x_new pre) ops).
+    flat_map file_view_mm (rev closed ++ [(last, cur)]) ++ blk_view_mm (x_blk x) = map Some (log_mm (x_new pre) ops) /\
+    (forall k, fold_right (fun pb a => file_aec_total k pb + a) 0 (rev closed ++ [(last, cur)]) + dec_total k (blk_view_aec (x_blk x))
+               = log_aec (x_new pre) ops k).
 Proof. exact end_to_end. Qed.
 Print Assumptions C13_records_across_outputs.
 
